@@ -1,4 +1,5 @@
 import Geo.Props.C08
+import Geo.Props.C08b
 #print axioms Geo.T08_translation_2d
 #print axioms Geo.T08_translation_3d
 #print axioms Geo.T08_scaling_3d
@@ -13,3 +14,13 @@ import Geo.Props.C08
 #print axioms Geo.T08_reflection_2d
 #print axioms Geo.T08_reflection_3d
 #print axioms Geo.T08_from_points
+#print axioms Geo.T08_gen_affine3
+#print axioms Geo.T08_gen_affine4
+#print axioms Geo.T08_gen_rot2
+#print axioms Geo.T08_gen_translation2
+#print axioms Geo.T08_gen_translation3
+#print axioms Geo.T08_gen_scaling2
+#print axioms Geo.T08_gen_rot3
+#print axioms Geo.T08_gen_householder2
+#print axioms Geo.T08_gen_householder3
+#print axioms Geo.T08_gen_structure
